@@ -126,6 +126,14 @@ impl Monitor for Mon {
                 v.push(Event::Deliver { to: Target::Req(i), reply: *r });
             }
         }
+        // clients that enforce FINGERPRINT: the acceptable reply without / with a wrong FINGERPRINT is a rejected buffer
+        if w.cfg.fingerprint {
+            for i in w.awaiting().into_iter().take(2) {
+                for f in [super::server::RFp::Absent, super::server::RFp::Bad] {
+                    v.push(Event::Deliver { to: Target::Req(i), reply: menu[0].with_fp(f) });
+                }
+            }
+        }
         if !w.reqs.is_empty() {
             v.push(Event::Deliver { to: Target::Unknown, reply: menu[0] });
             v.push(Event::RawBytes(vec![0u8; 7]));
@@ -275,6 +283,11 @@ pub fn run(ctx: &RunCtx) -> i32 {
             cfgs.push(Cfg { transport: t, mech: m, fingerprint: false, max_tx: limit, cred: 0, method: 1 });
         }
     }
+    // fingerprint-enforcing clients (limits 1 and 2)
+    for limit in [1usize, 2] {
+        cfgs.push(Cfg { transport: Transport::Unreliable { rto_ms: 100, gran_ms: 1, rm: 2, rc: 2 }, mech: Mech::None, fingerprint: true, max_tx: limit, cred: 0, method: 1 });
+        cfgs.push(Cfg { transport: Transport::Reliable { timeout_ms: 300 }, mech: Mech::ShortTerm(Some(false)), fingerprint: true, max_tx: limit, cred: 0, method: 1 });
+    }
     let per: Vec<_> = cfgs
         .par_iter()
         .map(|cfg| {
@@ -359,7 +372,7 @@ pub fn run(ctx: &RunCtx) -> i32 {
         rep,
         Finish {
             level: "model_checking",
-            rule: "breadth-first exploration of the real client for limits 0..=4 (depth 2*limit+4, capped at 9 quick / 11 thorough) x 4 transport/mechanism configurations over {Send (also probing a full table), Send with a 16-byte buffer (must fail without taking a slot), Indicate, Timer, AdvanceTo(next point, +1 ms, beyond), Deliver(an indication / a request carrying the id of an awaiting request), Deliver(each of the first two awaiting requests x reply menu incl. auth-failing, 401, 438), Deliver(unknown id), undecodable bytes}; default limit 10: directed fill-to-limit(+1 probe) / drain / refill executions for every pair of final-outcome kinds and every split of the ten requests between them, two rounds; limits 1, 2, 3, 10 x 3 configurations: table full, a success / error response whose id is one of 12 look-alikes of the newest / oldest outstanding id (same value under a fold of the 96 bits into 64 or 32 bits, a prefix, a suffix, byte- and word-order-insensitive digests, byte sums; plus an ordinary two-byte corruption) must be refused without events and free no slot, then every own response frees exactly one; limit 300: fill, probe, expire all in one timer call, refill. Monitor: send_request refused iff independently counted unfinished requests == limit; a refusal yields no event and an identical snapshot".into(),
+            rule: "breadth-first exploration of the real client for limits 0..=4 (depth 2*limit+4, capped at 9 quick / 11 thorough) x 4 transport/mechanism configurations (plus limits 1, 2 on two fingerprint-enforcing configurations, where the acceptable reply without / with a wrong FINGERPRINT is one more rejected buffer) over {Send (also probing a full table), Send with a 16-byte buffer (must fail without taking a slot), Indicate, Timer, AdvanceTo(next point, +1 ms, beyond), Deliver(an indication / a request carrying the id of an awaiting request), Deliver(each of the first two awaiting requests x reply menu incl. auth-failing, 401, 438), Deliver(unknown id), undecodable bytes}; default limit 10: directed fill-to-limit(+1 probe) / drain / refill executions for every pair of final-outcome kinds and every split of the ten requests between them, two rounds; limits 1, 2, 3, 10 x 3 configurations: table full, a success / error response whose id is one of 12 look-alikes of the newest / oldest outstanding id (same value under a fold of the 96 bits into 64 or 32 bits, a prefix, a suffix, byte- and word-order-insensitive digests, byte sums; plus an ordinary two-byte corruption) must be refused without events and free no slot, then every own response frees exactly one; limit 300: fill, probe, expire all in one timer call, refill. Monitor: send_request refused iff independently counted unfinished requests == limit; a refusal yields no event and an identical snapshot".into(),
             assumptions: vec!["a final outcome is what the application observes (response delivered, TransactionFailed, Retry)".into()],
             required_symbols: vec!["Send", "Indicate", "Timer", "Deliver", "refused-at-limit", "accepted-below-limit", "fill-drain-refill", "bfs-configs", "failed-send-clean", "limit-300", "lookalike-id-discarded"],
             min_outcomes: 6,
